@@ -7,7 +7,7 @@ After EVERY step of every history every tree is probed through the PUBLIC API wi
 universe (str, int, tuple, value-equal objects, identity-hashed objects, frozen dataclass, DictWrapper, the falsy ""
 and 0), every data_id that can occur (explicit ids of the operations, every answer of every calc_data_id callback of
 the history for every object, ids that never occur) and the node_id of every node allocated so far - present or
-absent: find_all(data), find_all(data_id=), find_first(data), find_first(data_id=), find_first(node_id=), tree[key],
+absent: find_all(data), find_all(data_id=), find_all(data_id=, max_results=0..3), find_first(data), find_first(data_id=), find_first(node_id=), tree[key],
 key in tree, calc_data_id(data), and on every node in the tree get_clones(), get_clones(add_self=True), is_clone(),
 node in tree; plus count, count_unique, len.
 
@@ -71,7 +71,7 @@ class Prop:
                    "used as key, a node_id, a Node) the callback's answer is supplied with the probe",
                    "a node_id (an address) never coincides with a data_id; `node in tree` is probed except under the name callback (its answer for a "
                    "Node object changes with the node's data)",
-                   "find_all(max_results=) on the index path is not probed here (D26 belongs to C09)"]
+                   "find_all(data_id=, max_results=k) is probed for k = 0..3 and modelled as repaired by the D26 fix (res[:k], 0 = no limit)"]
     trusted = ["harness/mut.py, mut_ex.py, mut_c01.py, mut_c02.py (replayer, probes, pointer-walk oracle, generators)"]
     manifest = dict(
         text=("Machine-checked (Coq 8.16, no axioms): under the tree invariant WF (the clone index lists exactly the nodes of the forest by "
